@@ -1105,6 +1105,11 @@ int safec_vsnprintf_s(out_fct_type out, const char *funcname, char *buffer,
                 if (*format) {
                     unsigned off = format - startformat;
                     char *s = (char *)malloc(off + 1);
+                    if (!s) {
+                        invoke_safe_str_constraint_handler(
+                            "vsnprintf_s: malloc failed", buffer, ENOMEM);
+                        return -(ENOMEM);
+                    }
                     memcpy(s, startformat, off);
                     s[off] = '\0';
                     idx = safec_ftoa_long(out, funcname, buffer, idx, bufsize,
@@ -1138,6 +1143,11 @@ int safec_vsnprintf_s(out_fct_type out, const char *funcname, char *buffer,
                 if (*format) {
                     unsigned off = format - startformat;
                     char *s = (char *)malloc(off + 1);
+                    if (!s) {
+                        invoke_safe_str_constraint_handler(
+                            "vsnprintf_s: malloc failed", buffer, ENOMEM);
+                        return -(ENOMEM);
+                    }
                     memcpy(s, startformat, off);
                     s[off] = '\0';
                     idx = safec_etoa_long(out, funcname, buffer, idx, bufsize,
@@ -1166,6 +1176,11 @@ int safec_vsnprintf_s(out_fct_type out, const char *funcname, char *buffer,
                 if (*format) {
                     unsigned off = format - startformat;
                     char *s = (char *)malloc(off + 1);
+                    if (!s) {
+                        invoke_safe_str_constraint_handler(
+                            "vsnprintf_s: malloc failed", buffer, ENOMEM);
+                        return -(ENOMEM);
+                    }
                     memcpy(s, startformat, off);
                     s[off] = '\0';
                     idx = safec_atoa_long(out, funcname, buffer, idx, bufsize,
@@ -1183,6 +1198,11 @@ int safec_vsnprintf_s(out_fct_type out, const char *funcname, char *buffer,
                 if (*format) {
                     unsigned off = format - startformat;
                     char *s = (char *)malloc(off + 1);
+                    if (!s) {
+                        invoke_safe_str_constraint_handler(
+                            "vsnprintf_s: malloc failed", buffer, ENOMEM);
+                        return -(ENOMEM);
+                    }
                     memcpy(s, startformat, off);
                     s[off] = '\0';
                     idx = safec_atoa(out, funcname, buffer, idx, bufsize,
@@ -1284,7 +1304,8 @@ int safec_vsnprintf_s(out_fct_type out, const char *funcname, char *buffer,
                              "%s: wcstombs_s for %%ls arg failed", funcname);
                     invoke_safe_str_constraint_handler(msg, buffer,
                                                        RCNEGATE(err));
-                    return err;
+                    free(p);
+                    return err > 0 ? -err : err;
                 }
 #else
                 {
